@@ -61,6 +61,9 @@ def plan(tier, seed):
                 continue
             for amp in ((0.0, 0.15) if quick else (0.0, 0.05, 0.15)):
                 cases.append(dict(key=f"solid/{lab}/{mem}/{mat}/amp={amp}", kind="solid", mesh=mk, member=mem, fk=fk, mat=mat, amp=amp, seed=seed, tier=tier, cost=8 if "27" in lab or "20" in lab or "10" in lab else 2))
+    # uniform-grid regions (uniform=True: compressed storage) with materials whose tangent is the same in every cell
+    for dimu in (2, 3):
+        cases.append(dict(key=f"uniform-region/linear-elastic/dim={dimu}", kind="uniform-linear", dim=dimu, seed=seed, tier=tier, cost=3))
     # what Newton sums over SEVERAL items with scale factors: matrix = sum m_i K_i = derivative of sum m_i r_i, for every
     # factor a caller may set (None, +-1, a general factor, exactly zero as float / int: a de-activated item)
     for mlab, mval in (("None", None), ("1.0", 1.0), ("-1.0", -1.0), ("2.5", 2.5), ("0.0", 0.0), ("0", 0), ("1e-12", 1e-12)):
@@ -446,6 +449,28 @@ def run(case):
         r2 = body.assemble.vector(field).toarray()
         if np.abs(r1 - r2).max() > 1e-12 * max(np.abs(r1).max(), 1e-12):
             c.bad("buffers-vector", "vector of a body with a call history differs from the vector of a fresh body at the same state (stale result buffer)", float(np.abs(r1 - r2).max()), 0)
+        return c.result(dict(case=case["key"], unknowns=int(values_of(field).size)))
+    if kind == "uniform-linear":
+        if case["dim"] == 2:
+            mesh = fem.Rectangle(b=(2.0, 1.0), n=(4, 3))
+            region = fem.RegionQuad(mesh, uniform=True)
+            um = C.LinearElasticPlaneStress(E=2.0, nu=0.3)
+        else:
+            mesh = fem.Cube(b=(2.0, 1.0, 1.5), n=(3, 3, 2))
+            region = fem.RegionHexahedron(mesh, uniform=True)
+            um = fem.LinearElastic(E=2.0, nu=0.3)
+        field = fem.FieldContainer([fem.Field(region, dim=mesh.dim)])
+        field[0].values[:] = 0.05 * zoo.offarr(seed, 1160, field[0].values.shape)
+        body = fem.SolidBody(um, field)
+        K = fd_check(c, "K", [body], field, 1e-4, symmetric=True)
+        # the same body on a general region of the same mesh
+        rg = type(region)(mesh)
+        fg = fem.FieldContainer([fem.Field(rg, dim=mesh.dim, values=field[0].values.copy())])
+        Kg = fem.SolidBody(um, fg).assemble.matrix(fg).toarray()
+        c.trans += 1
+        c.traces += 1
+        if K is not None and np.abs(K - Kg).max() > 1e-12 * np.abs(Kg).max():
+            c.bad("vs-general-region", "matrix on the uniform region vs the general region of the same mesh", float(np.abs(K - Kg).max() / np.abs(Kg).max()), 0, 1e-12)
         return c.result(dict(case=case["key"], unknowns=int(values_of(field).size)))
     if kind == "itemsum":
         mesh, region, field = make_field("hexahedron", "renum", "3d", seed)
